@@ -407,6 +407,7 @@ fn run_mux(bops: &[BOp], script: Vec<Ev>, ops: &[Vec<String>], out: &mut String)
         writes: Arc::new(Mutex::new(0)),
     };
     let data = sink.data.clone();
+    let writes = sink.writes.clone();
     let built = catch_unwind(AssertUnwindSafe(|| apply_bops(MuxerBuilder::new(sink), bops).build()));
     let mut mux: Option<Muxer<ScriptSink>> = match built {
         Err(_) => {
@@ -456,8 +457,10 @@ fn run_mux(bops: &[BOp], script: Vec<Ev>, ops: &[Vec<String>], out: &mut String)
                 break;
             }
         }
+        out.push_str(&format!("s {:x}\n", data.lock().unwrap().len()));
     }
     out.push_str(&format!("sink {}\n", hex_of_bytes(&data.lock().unwrap())));
+    out.push_str(&format!("# writes {:x}\n", *writes.lock().unwrap()));
 }
 
 fn run_frag(bops: &[BOp], fc: Option<FragmentConfig>, ops: &[Vec<String>], out: &mut String) {
